@@ -311,7 +311,20 @@ def stmt_seeds(dialect):
             t, u, v = tabs()
             return QQ.from_(t).distinct_on("a", t.b).select(t.a, t.b)
 
-        S.update(pg_ret=pg_ret, pg_upd_ret=pg_upd_ret, pg_don=pg_don)
+        def pg_ret_star():
+            t, u, v = tabs()
+            return QQ.into(t).insert(1, 2).returning("*")
+
+        def pg_upd_ret_tstar():
+            t, u, v = tabs()
+            return QQ.update(t).from_(u).set(t.a, u.x).where(t.id == u.tid).returning(t.star)
+
+        def pg_del_ret():
+            t, u, v = tabs()
+            return QQ.from_(t).delete().where(t.id == 3).returning("*")
+
+        S.update(pg_ret=pg_ret, pg_upd_ret=pg_upd_ret, pg_don=pg_don, pg_ret_star=pg_ret_star, pg_upd_ret_tstar=pg_upd_ret_tstar,
+                 pg_del_ret=pg_del_ret)
     if dialect == "mysql":
         def my_mod():
             t, u, v = tabs()
